@@ -3,5 +3,7 @@ CONSTANTS Writers = {1, 2, 3}
  NChunks = 2
  InitKind = "different"
  InPlace = FALSE
+ Faults = FALSE
+ OnError = "report"
 INVARIANTS TargetIntact ReaderSeesComplete SameContentSucceeds OkMeansWritten
 CHECK_DEADLOCK FALSE
